@@ -1,17 +1,17 @@
 INIT Init
-NEXT NextSim
+NEXT Next
 CONSTANTS
-  MaxRules = 2
-  MaxScen = 3
-  MaxEx = 2
-  MaxSteps = 3
+  MaxRules = 1
+  MaxScen = 1
+  MaxEx = 1
+  MaxSteps = 2
   MaxStmts = 8
   MaxStepsTot = 14
   MaxLines = 95
-  MaxElems = 40
-  LayoutsF = {"none", "one", "two", "cmt", "multi"}
-  Layouts = {"none", "one", "two", "cmt", "multi"}
-  Hows = {"none", "blank", "comment", "both"}
+  MaxElems = 3
+  LayoutsF = {"none", "two", "multi"}
+  Layouts = {"none", "one", "cmt"}
+  Hows = {"none", "both"}
   Descs = {0, 1}
   StepKws <- AllKws
   Args <- ArgsFull
